@@ -213,6 +213,67 @@ pub mod rust_decimal {
         open spec fn obeys_add_spec() -> bool { false }
         open spec fn add_req(self, rhs: &'b Decimal) -> bool { true }
         uninterp spec fn add_spec(self, rhs: &'b Decimal) -> Decimal; }
+    // the reference forms of the arithmetic operators (rust_decimal implements all combinations)
+    impl<'a> std::ops::Sub<Decimal> for &'a Decimal { type Output = Decimal;
+        #[verifier::external_body] fn sub(self, rhs: Decimal) -> (r: Decimal) ensures r@ == self@ - rhs@ { unimplemented!() } }
+    impl<'a> vstd::std_specs::ops::SubSpecImpl<Decimal> for &'a Decimal {
+        open spec fn obeys_sub_spec() -> bool { false }
+        open spec fn sub_req(self, rhs: Decimal) -> bool { true }
+        uninterp spec fn sub_spec(self, rhs: Decimal) -> Decimal; }
+    impl<'a, 'b> std::ops::Sub<&'b Decimal> for &'a Decimal { type Output = Decimal;
+        #[verifier::external_body] fn sub(self, rhs: &'b Decimal) -> (r: Decimal) ensures r@ == self@ - rhs@ { unimplemented!() } }
+    impl<'a, 'b> vstd::std_specs::ops::SubSpecImpl<&'b Decimal> for &'a Decimal {
+        open spec fn obeys_sub_spec() -> bool { false }
+        open spec fn sub_req(self, rhs: &'b Decimal) -> bool { true }
+        uninterp spec fn sub_spec(self, rhs: &'b Decimal) -> Decimal; }
+    impl<'b> std::ops::Sub<&'b Decimal> for Decimal { type Output = Decimal;
+        #[verifier::external_body] fn sub(self, rhs: &'b Decimal) -> (r: Decimal) ensures r@ == self@ - rhs@ { unimplemented!() } }
+    impl<'b> vstd::std_specs::ops::SubSpecImpl<&'b Decimal> for Decimal {
+        open spec fn obeys_sub_spec() -> bool { false }
+        open spec fn sub_req(self, rhs: &'b Decimal) -> bool { true }
+        uninterp spec fn sub_spec(self, rhs: &'b Decimal) -> Decimal; }
+    impl<'a> std::ops::Mul<Decimal> for &'a Decimal { type Output = Decimal;
+        #[verifier::external_body] fn mul(self, rhs: Decimal) -> (r: Decimal) ensures r@ == self@ * rhs@ { unimplemented!() } }
+    impl<'a> vstd::std_specs::ops::MulSpecImpl<Decimal> for &'a Decimal {
+        open spec fn obeys_mul_spec() -> bool { false }
+        open spec fn mul_req(self, rhs: Decimal) -> bool { true }
+        uninterp spec fn mul_spec(self, rhs: Decimal) -> Decimal; }
+    impl<'a, 'b> std::ops::Mul<&'b Decimal> for &'a Decimal { type Output = Decimal;
+        #[verifier::external_body] fn mul(self, rhs: &'b Decimal) -> (r: Decimal) ensures r@ == self@ * rhs@ { unimplemented!() } }
+    impl<'a, 'b> vstd::std_specs::ops::MulSpecImpl<&'b Decimal> for &'a Decimal {
+        open spec fn obeys_mul_spec() -> bool { false }
+        open spec fn mul_req(self, rhs: &'b Decimal) -> bool { true }
+        uninterp spec fn mul_spec(self, rhs: &'b Decimal) -> Decimal; }
+    impl<'b> std::ops::Mul<&'b Decimal> for Decimal { type Output = Decimal;
+        #[verifier::external_body] fn mul(self, rhs: &'b Decimal) -> (r: Decimal) ensures r@ == self@ * rhs@ { unimplemented!() } }
+    impl<'b> vstd::std_specs::ops::MulSpecImpl<&'b Decimal> for Decimal {
+        open spec fn obeys_mul_spec() -> bool { false }
+        open spec fn mul_req(self, rhs: &'b Decimal) -> bool { true }
+        uninterp spec fn mul_spec(self, rhs: &'b Decimal) -> Decimal; }
+    impl<'a> std::ops::Div<Decimal> for &'a Decimal { type Output = Decimal;
+        #[verifier::external_body] fn div(self, rhs: Decimal) -> (r: Decimal) ensures r@ == self@ / rhs@ { unimplemented!() } }
+    impl<'a> vstd::std_specs::ops::DivSpecImpl<Decimal> for &'a Decimal {
+        open spec fn obeys_div_spec() -> bool { false }
+        open spec fn div_req(self, rhs: Decimal) -> bool { rhs@ != 0real }
+        uninterp spec fn div_spec(self, rhs: Decimal) -> Decimal; }
+    impl<'a, 'b> std::ops::Div<&'b Decimal> for &'a Decimal { type Output = Decimal;
+        #[verifier::external_body] fn div(self, rhs: &'b Decimal) -> (r: Decimal) ensures r@ == self@ / rhs@ { unimplemented!() } }
+    impl<'a, 'b> vstd::std_specs::ops::DivSpecImpl<&'b Decimal> for &'a Decimal {
+        open spec fn obeys_div_spec() -> bool { false }
+        open spec fn div_req(self, rhs: &'b Decimal) -> bool { rhs@ != 0real }
+        uninterp spec fn div_spec(self, rhs: &'b Decimal) -> Decimal; }
+    impl<'b> std::ops::Div<&'b Decimal> for Decimal { type Output = Decimal;
+        #[verifier::external_body] fn div(self, rhs: &'b Decimal) -> (r: Decimal) ensures r@ == self@ / rhs@ { unimplemented!() } }
+    impl<'b> vstd::std_specs::ops::DivSpecImpl<&'b Decimal> for Decimal {
+        open spec fn obeys_div_spec() -> bool { false }
+        open spec fn div_req(self, rhs: &'b Decimal) -> bool { rhs@ != 0real }
+        uninterp spec fn div_spec(self, rhs: &'b Decimal) -> Decimal; }
+    impl<'b> std::ops::Add<&'b Decimal> for Decimal { type Output = Decimal;
+        #[verifier::external_body] fn add(self, rhs: &'b Decimal) -> (r: Decimal) ensures r@ == self@ + rhs@ { unimplemented!() } }
+    impl<'b> vstd::std_specs::ops::AddSpecImpl<&'b Decimal> for Decimal {
+        open spec fn obeys_add_spec() -> bool { false }
+        open spec fn add_req(self, rhs: &'b Decimal) -> bool { true }
+        uninterp spec fn add_spec(self, rhs: &'b Decimal) -> Decimal; }
     impl std::ops::MulAssign for Decimal {
         #[verifier::external_body] fn mul_assign(&mut self, rhs: Decimal) ensures final(self)@ == old(self)@ * rhs@ { unimplemented!() } }
     impl vstd::std_specs::ops::MulAssignSpecImpl for Decimal {
